@@ -9,8 +9,8 @@ import (
 	"strings"
 
 	"verifharness/internal/asm"
-	"verifharness/internal/items"
 	"verifharness/internal/impl"
+	"verifharness/internal/items"
 	"verifharness/internal/rng"
 
 	"github.com/artela-network/artela-evm/vm"
